@@ -359,3 +359,148 @@ func Harness_C04_BatchingOperator() {
 	}
 	verif.Reached()
 }
+
+// verifGenReader is a split reader whose records carry the deployment generation that read them.
+type verifGenReader struct {
+	connectors.UnimplementedSourceReader
+	gen     byte
+	pos     int
+	total   int
+	permits chan int
+}
+
+func (r *verifGenReader) ReadEvents() ([][]byte, error) {
+	n := <-r.permits
+	var out [][]byte
+	for i := 0; i < n && r.pos < r.total; i++ {
+		out = append(out, []byte{byte(r.pos), r.gen})
+		r.pos++
+	}
+	if r.pos >= r.total {
+		return out, connectors.ErrEndOfInput
+	}
+	return out, nil
+}
+
+func (r *verifGenReader) AssignSplits(splits []*workerpb.SourceSplit) error {
+	for _, s := range splits {
+		if len(s.Cursor) == 1 {
+			r.pos = int(s.Cursor[0])
+		}
+	}
+	return nil
+}
+
+func (r *verifGenReader) Checkpoint() [][]byte { return [][]byte{{byte(r.pos)}} }
+
+// Harness_C04_RunnerRedeploy: a source runner that survives a recovery is deployed a second
+// time in the same process, with the same or a different number of operators, and its split is
+// assigned again from the checkpointed position (0 = no checkpoint yet, or everything read so
+// far). The operators of the second deployment must receive exactly the records from that
+// position on - each once, in split order, at the operator that owns its key under the new
+// operator count - and nothing that the first deployment's reader produced.
+func Harness_C04_RunnerRedeploy() {
+	verif.ExploreSelect(verif.Param("SELECT", 0) == 1)
+	total := verif.Param("R", 3)
+	keys := [][]byte{[]byte("k1"), []byte("k2"), []byte("k3")}
+	keyer := &verifKeyer{keys: keys, keyOf: make([]int, total)}
+	for i := range keyer.keyOf {
+		keyer.keyOf[i] = verif.Choose("key", len(keys))
+	}
+	n1 := verif.IntRange("operators-before", 1, 2)
+	n2 := verif.IntRange("operators-after", 1, 3)
+	first := []*verifDownstream{{id: "o1"}, {id: "o2"}}
+	second := []*verifDownstream{{id: "o1"}, {id: "o2"}, {id: "o3"}}
+	gens := [][]*verifDownstream{first[:n1], second[:n2]}
+	readers := []*verifGenReader{
+		{gen: 1, total: total, permits: make(chan int, 16)},
+		{gen: 2, total: total, permits: make(chan int, 16)},
+	}
+	gen := 0
+	job := &verifSRJob{cursors: map[uint64]int{}}
+	ctx, cancel := context.WithCancel(context.Background())
+	defer cancel()
+	sr := New(NewParams{Host: "h", UserHandler: keyer, Job: job, Clock: clocks.NewFrozenClock(),
+		OperatorFactory: func(senderID string, node *jobpb.NodeIdentity) proto.Operator {
+			for _, d := range gens[gen] {
+				if d.id == node.Id {
+					return d
+				}
+			}
+			return nil
+		},
+		SourceReaderFactory: func(*jobconfigpb.Source) connectors.SourceReader { return readers[gen] },
+		EventBatching:       batching.EventBatcherParams{MaxSize: 1, MaxDelay: 20 * time.Millisecond},
+	})
+	go sr.Start(ctx)
+	verif.Quiesce()
+	deploy := func(cursor []byte) {
+		ids := make([]*jobpb.NodeIdentity, len(gens[gen]))
+		for i, d := range gens[gen] {
+			ids[i] = &jobpb.NodeIdentity{Id: d.id, Host: "h"}
+		}
+		if err := sr.HandleDeploy(ctx, &workerpb.DeploySourceRunnerRequest{Operators: ids, KeyGroupCount: 8, Sources: []*jobconfigpb.Source{{}}}); err != nil {
+			panic(err)
+		}
+		if err := sr.HandleAssignSplits([]*workerpb.SourceSplit{{SplitId: "only", Cursor: cursor}}); err != nil {
+			panic(err)
+		}
+		verif.Quiesce()
+	}
+	deploy(nil)
+	read1 := verif.Choose("records-read-before-the-recovery", total) // 0..total-1: the split is not finished
+	if read1 > 0 {
+		readers[0].permits <- read1
+		verif.Quiesce()
+	}
+	// recovery: the job redeploys the surviving runner from its last completed checkpoint
+	from := 0
+	if verif.Choose("checkpoint-covers-what-was-read", 2) == 1 {
+		from = read1
+	}
+	gen = 1
+	deploy([]byte{byte(from)})
+	// whatever still polls the old reader gets records too; the new reader delivers the rest
+	readers[0].permits <- total
+	readers[1].permits <- total
+	verif.Quiesce()
+	for i := 0; i < 4; i++ {
+		verif.FireTimers()
+		verif.Quiesce()
+	}
+
+	ks := partitioning.NewKeySpace(8, n2)
+	seen := make([]int, total)
+	stale := 0 // records produced by the first deployment's reader that reached the new operators
+	for oi, d := range gens[1] {
+		last := -1
+		for _, ev := range d.stream {
+			ke := ev.GetKeyedEvent()
+			if ke == nil {
+				continue
+			}
+			rec := int(ke.Value[0])
+			if ke.Value[1] != 2 {
+				stale++
+				continue
+			}
+			seen[rec]++
+			verif.Assert(ks.RangeIndex(ke.Key) == oi, "record-delivered-to-the-operator-owning-its-key")
+			verif.Assert(rec > last, "records-in-split-order-at-each-operator")
+			last = rec
+		}
+	}
+	for rec := range seen {
+		if rec >= from {
+			verif.Assert(seen[rec] == 1, "every-record-from-the-checkpointed-position-delivered-exactly-once")
+		} else {
+			verif.Assert(seen[rec] == 0, "records-before-the-checkpointed-position-not-delivered-again")
+		}
+	}
+	// known finding F31: HandleDeploy does not stop the previous deployment's loop, whose pending
+	// read of the old reader is still keyed and routed - to the new operators
+	verif.Reached()
+	if verif.Param("STALE", 1) == 1 { // not part of the routing property (C05 registration)
+		verif.AssertKnown(stale == 0, "no-record-of-the-previous-deployment-reaches-the-new-operators", "F31", true)
+	}
+}
